@@ -199,9 +199,11 @@ harness!(name=c17_binom_k24_n100, prop=C17, mode=B, kind=normal, tier=thorough, 
 harness!(name=c17_binom_k32_n100, prop=C17, mode=B, kind=normal, tier=thorough, unwind=35, { binom_k::<32>(100) });
 
 // ---- binomial coefficient, second decomposition: n concrete per instance, k symbolic
-// @bound c17_binomn_: N concrete per instance (quick: 14 instances incl. 62..68 and 100, a rotating third of the other N <= 67 by VERIF_SEED; thorough: every N in 0..=100), k symbolic in [0, N] with C(N,k) < 2^64
+// @bound c17_binomn_: N concrete per instance (quick: N = 0, 1, 2, 10, 67 and two more of 34, 50, 62, 64, 66, 68 by VERIF_SEED; thorough: every N in 0..=100), k symbolic in [0, N] with C(N,k) < 2^64
 // @claim c17_binomn_: for every k in [0, N]: binom_coeff(N,k) equals the exact integer C(N,k) (full Pascal triangle evaluated by the compiler in 128-bit arithmetic). Symmetry and Pascal's rule are consequences of exactness over all k in [0, N] and all instances N, N-1 (the exact integers satisfy them); the K-concrete instances assert them directly (B, integers; the loop's trip count min(k, N-k) is the symbolic quantity)
-// @cap c17_binomn_: 200
+// @cap c17_binomn_: 300
+// @weight c17_binomn_: 4
+// @portfolio c17_binomn_: 1
 const fn pascal_full() -> [[u64; 101]; 101] {
     let mut out = [[0u64; 101]; 101];
     let mut row = [0u128; 102];
@@ -239,72 +241,72 @@ fn binom_n<const N: usize>() {
 harness!(name=c17_binomn_000, prop=C17, mode=B, kind=normal, tier=quick, unwind=3, { binom_n::<0>() });
 harness!(name=c17_binomn_001, prop=C17, mode=B, kind=normal, tier=quick, unwind=3, { binom_n::<1>() });
 harness!(name=c17_binomn_002, prop=C17, mode=B, kind=normal, tier=quick, unwind=4, { binom_n::<2>() });
-harness!(name=c17_binomn_003, prop=C17, mode=B, kind=normal, tier=rot0, unwind=4, { binom_n::<3>() });
-harness!(name=c17_binomn_004, prop=C17, mode=B, kind=normal, tier=rot1, unwind=5, { binom_n::<4>() });
-harness!(name=c17_binomn_005, prop=C17, mode=B, kind=normal, tier=rot2, unwind=5, { binom_n::<5>() });
-harness!(name=c17_binomn_006, prop=C17, mode=B, kind=normal, tier=rot0, unwind=6, { binom_n::<6>() });
-harness!(name=c17_binomn_007, prop=C17, mode=B, kind=normal, tier=rot1, unwind=6, { binom_n::<7>() });
-harness!(name=c17_binomn_008, prop=C17, mode=B, kind=normal, tier=rot2, unwind=7, { binom_n::<8>() });
-harness!(name=c17_binomn_009, prop=C17, mode=B, kind=normal, tier=rot0, unwind=7, { binom_n::<9>() });
+harness!(name=c17_binomn_003, prop=C17, mode=B, kind=normal, tier=thorough, unwind=4, { binom_n::<3>() });
+harness!(name=c17_binomn_004, prop=C17, mode=B, kind=normal, tier=thorough, unwind=5, { binom_n::<4>() });
+harness!(name=c17_binomn_005, prop=C17, mode=B, kind=normal, tier=thorough, unwind=5, { binom_n::<5>() });
+harness!(name=c17_binomn_006, prop=C17, mode=B, kind=normal, tier=thorough, unwind=6, { binom_n::<6>() });
+harness!(name=c17_binomn_007, prop=C17, mode=B, kind=normal, tier=thorough, unwind=6, { binom_n::<7>() });
+harness!(name=c17_binomn_008, prop=C17, mode=B, kind=normal, tier=thorough, unwind=7, { binom_n::<8>() });
+harness!(name=c17_binomn_009, prop=C17, mode=B, kind=normal, tier=thorough, unwind=7, { binom_n::<9>() });
 harness!(name=c17_binomn_010, prop=C17, mode=B, kind=normal, tier=quick, unwind=8, { binom_n::<10>() });
-harness!(name=c17_binomn_011, prop=C17, mode=B, kind=normal, tier=rot2, unwind=8, { binom_n::<11>() });
-harness!(name=c17_binomn_012, prop=C17, mode=B, kind=normal, tier=rot0, unwind=9, { binom_n::<12>() });
-harness!(name=c17_binomn_013, prop=C17, mode=B, kind=normal, tier=rot1, unwind=9, { binom_n::<13>() });
-harness!(name=c17_binomn_014, prop=C17, mode=B, kind=normal, tier=rot2, unwind=10, { binom_n::<14>() });
-harness!(name=c17_binomn_015, prop=C17, mode=B, kind=normal, tier=rot0, unwind=10, { binom_n::<15>() });
-harness!(name=c17_binomn_016, prop=C17, mode=B, kind=normal, tier=rot1, unwind=11, { binom_n::<16>() });
-harness!(name=c17_binomn_017, prop=C17, mode=B, kind=normal, tier=rot2, unwind=11, { binom_n::<17>() });
-harness!(name=c17_binomn_018, prop=C17, mode=B, kind=normal, tier=rot0, unwind=12, { binom_n::<18>() });
-harness!(name=c17_binomn_019, prop=C17, mode=B, kind=normal, tier=rot1, unwind=12, { binom_n::<19>() });
-harness!(name=c17_binomn_020, prop=C17, mode=B, kind=normal, tier=rot2, unwind=13, { binom_n::<20>() });
-harness!(name=c17_binomn_021, prop=C17, mode=B, kind=normal, tier=rot0, unwind=13, { binom_n::<21>() });
-harness!(name=c17_binomn_022, prop=C17, mode=B, kind=normal, tier=rot1, unwind=14, { binom_n::<22>() });
-harness!(name=c17_binomn_023, prop=C17, mode=B, kind=normal, tier=rot2, unwind=14, { binom_n::<23>() });
-harness!(name=c17_binomn_024, prop=C17, mode=B, kind=normal, tier=rot0, unwind=15, { binom_n::<24>() });
-harness!(name=c17_binomn_025, prop=C17, mode=B, kind=normal, tier=rot1, unwind=15, { binom_n::<25>() });
-harness!(name=c17_binomn_026, prop=C17, mode=B, kind=normal, tier=rot2, unwind=16, { binom_n::<26>() });
-harness!(name=c17_binomn_027, prop=C17, mode=B, kind=normal, tier=rot0, unwind=16, { binom_n::<27>() });
-harness!(name=c17_binomn_028, prop=C17, mode=B, kind=normal, tier=rot1, unwind=17, { binom_n::<28>() });
-harness!(name=c17_binomn_029, prop=C17, mode=B, kind=normal, tier=rot2, unwind=17, { binom_n::<29>() });
-harness!(name=c17_binomn_030, prop=C17, mode=B, kind=normal, tier=rot0, unwind=18, { binom_n::<30>() });
-harness!(name=c17_binomn_031, prop=C17, mode=B, kind=normal, tier=rot1, unwind=18, { binom_n::<31>() });
-harness!(name=c17_binomn_032, prop=C17, mode=B, kind=normal, tier=rot2, unwind=19, { binom_n::<32>() });
-harness!(name=c17_binomn_033, prop=C17, mode=B, kind=normal, tier=quick, unwind=19, { binom_n::<33>() });
-harness!(name=c17_binomn_034, prop=C17, mode=B, kind=normal, tier=quick, unwind=20, { binom_n::<34>() });
-harness!(name=c17_binomn_035, prop=C17, mode=B, kind=normal, tier=rot2, unwind=20, { binom_n::<35>() });
-harness!(name=c17_binomn_036, prop=C17, mode=B, kind=normal, tier=rot0, unwind=21, { binom_n::<36>() });
-harness!(name=c17_binomn_037, prop=C17, mode=B, kind=normal, tier=rot1, unwind=21, { binom_n::<37>() });
-harness!(name=c17_binomn_038, prop=C17, mode=B, kind=normal, tier=rot2, unwind=22, { binom_n::<38>() });
-harness!(name=c17_binomn_039, prop=C17, mode=B, kind=normal, tier=rot0, unwind=22, { binom_n::<39>() });
-harness!(name=c17_binomn_040, prop=C17, mode=B, kind=normal, tier=rot1, unwind=23, { binom_n::<40>() });
-harness!(name=c17_binomn_041, prop=C17, mode=B, kind=normal, tier=rot2, unwind=23, { binom_n::<41>() });
-harness!(name=c17_binomn_042, prop=C17, mode=B, kind=normal, tier=rot0, unwind=24, { binom_n::<42>() });
-harness!(name=c17_binomn_043, prop=C17, mode=B, kind=normal, tier=rot1, unwind=24, { binom_n::<43>() });
-harness!(name=c17_binomn_044, prop=C17, mode=B, kind=normal, tier=rot2, unwind=25, { binom_n::<44>() });
-harness!(name=c17_binomn_045, prop=C17, mode=B, kind=normal, tier=rot0, unwind=25, { binom_n::<45>() });
-harness!(name=c17_binomn_046, prop=C17, mode=B, kind=normal, tier=rot1, unwind=26, { binom_n::<46>() });
-harness!(name=c17_binomn_047, prop=C17, mode=B, kind=normal, tier=rot2, unwind=26, { binom_n::<47>() });
-harness!(name=c17_binomn_048, prop=C17, mode=B, kind=normal, tier=rot0, unwind=27, { binom_n::<48>() });
-harness!(name=c17_binomn_049, prop=C17, mode=B, kind=normal, tier=rot1, unwind=27, { binom_n::<49>() });
-harness!(name=c17_binomn_050, prop=C17, mode=B, kind=normal, tier=rot2, unwind=28, { binom_n::<50>() });
-harness!(name=c17_binomn_051, prop=C17, mode=B, kind=normal, tier=rot0, unwind=28, { binom_n::<51>() });
-harness!(name=c17_binomn_052, prop=C17, mode=B, kind=normal, tier=rot1, unwind=29, { binom_n::<52>() });
-harness!(name=c17_binomn_053, prop=C17, mode=B, kind=normal, tier=rot2, unwind=29, { binom_n::<53>() });
-harness!(name=c17_binomn_054, prop=C17, mode=B, kind=normal, tier=rot0, unwind=30, { binom_n::<54>() });
-harness!(name=c17_binomn_055, prop=C17, mode=B, kind=normal, tier=rot1, unwind=30, { binom_n::<55>() });
-harness!(name=c17_binomn_056, prop=C17, mode=B, kind=normal, tier=rot2, unwind=31, { binom_n::<56>() });
-harness!(name=c17_binomn_057, prop=C17, mode=B, kind=normal, tier=rot0, unwind=31, { binom_n::<57>() });
-harness!(name=c17_binomn_058, prop=C17, mode=B, kind=normal, tier=rot1, unwind=32, { binom_n::<58>() });
-harness!(name=c17_binomn_059, prop=C17, mode=B, kind=normal, tier=rot2, unwind=32, { binom_n::<59>() });
-harness!(name=c17_binomn_060, prop=C17, mode=B, kind=normal, tier=rot0, unwind=33, { binom_n::<60>() });
-harness!(name=c17_binomn_061, prop=C17, mode=B, kind=normal, tier=rot1, unwind=33, { binom_n::<61>() });
-harness!(name=c17_binomn_062, prop=C17, mode=B, kind=normal, tier=quick, unwind=34, { binom_n::<62>() });
-harness!(name=c17_binomn_063, prop=C17, mode=B, kind=normal, tier=quick, unwind=34, { binom_n::<63>() });
-harness!(name=c17_binomn_064, prop=C17, mode=B, kind=normal, tier=quick, unwind=35, { binom_n::<64>() });
-harness!(name=c17_binomn_065, prop=C17, mode=B, kind=normal, tier=quick, unwind=35, { binom_n::<65>() });
-harness!(name=c17_binomn_066, prop=C17, mode=B, kind=normal, tier=quick, unwind=36, { binom_n::<66>() });
+harness!(name=c17_binomn_011, prop=C17, mode=B, kind=normal, tier=thorough, unwind=8, { binom_n::<11>() });
+harness!(name=c17_binomn_012, prop=C17, mode=B, kind=normal, tier=thorough, unwind=9, { binom_n::<12>() });
+harness!(name=c17_binomn_013, prop=C17, mode=B, kind=normal, tier=thorough, unwind=9, { binom_n::<13>() });
+harness!(name=c17_binomn_014, prop=C17, mode=B, kind=normal, tier=thorough, unwind=10, { binom_n::<14>() });
+harness!(name=c17_binomn_015, prop=C17, mode=B, kind=normal, tier=thorough, unwind=10, { binom_n::<15>() });
+harness!(name=c17_binomn_016, prop=C17, mode=B, kind=normal, tier=thorough, unwind=11, { binom_n::<16>() });
+harness!(name=c17_binomn_017, prop=C17, mode=B, kind=normal, tier=thorough, unwind=11, { binom_n::<17>() });
+harness!(name=c17_binomn_018, prop=C17, mode=B, kind=normal, tier=thorough, unwind=12, { binom_n::<18>() });
+harness!(name=c17_binomn_019, prop=C17, mode=B, kind=normal, tier=thorough, unwind=12, { binom_n::<19>() });
+harness!(name=c17_binomn_020, prop=C17, mode=B, kind=normal, tier=thorough, unwind=13, { binom_n::<20>() });
+harness!(name=c17_binomn_021, prop=C17, mode=B, kind=normal, tier=thorough, unwind=13, { binom_n::<21>() });
+harness!(name=c17_binomn_022, prop=C17, mode=B, kind=normal, tier=thorough, unwind=14, { binom_n::<22>() });
+harness!(name=c17_binomn_023, prop=C17, mode=B, kind=normal, tier=thorough, unwind=14, { binom_n::<23>() });
+harness!(name=c17_binomn_024, prop=C17, mode=B, kind=normal, tier=thorough, unwind=15, { binom_n::<24>() });
+harness!(name=c17_binomn_025, prop=C17, mode=B, kind=normal, tier=thorough, unwind=15, { binom_n::<25>() });
+harness!(name=c17_binomn_026, prop=C17, mode=B, kind=normal, tier=thorough, unwind=16, { binom_n::<26>() });
+harness!(name=c17_binomn_027, prop=C17, mode=B, kind=normal, tier=thorough, unwind=16, { binom_n::<27>() });
+harness!(name=c17_binomn_028, prop=C17, mode=B, kind=normal, tier=thorough, unwind=17, { binom_n::<28>() });
+harness!(name=c17_binomn_029, prop=C17, mode=B, kind=normal, tier=thorough, unwind=17, { binom_n::<29>() });
+harness!(name=c17_binomn_030, prop=C17, mode=B, kind=normal, tier=thorough, unwind=18, { binom_n::<30>() });
+harness!(name=c17_binomn_031, prop=C17, mode=B, kind=normal, tier=thorough, unwind=18, { binom_n::<31>() });
+harness!(name=c17_binomn_032, prop=C17, mode=B, kind=normal, tier=thorough, unwind=19, { binom_n::<32>() });
+harness!(name=c17_binomn_033, prop=C17, mode=B, kind=normal, tier=thorough, unwind=19, { binom_n::<33>() });
+harness!(name=c17_binomn_034, prop=C17, mode=B, kind=normal, tier=rot0, unwind=20, { binom_n::<34>() });
+harness!(name=c17_binomn_035, prop=C17, mode=B, kind=normal, tier=thorough, unwind=20, { binom_n::<35>() });
+harness!(name=c17_binomn_036, prop=C17, mode=B, kind=normal, tier=thorough, unwind=21, { binom_n::<36>() });
+harness!(name=c17_binomn_037, prop=C17, mode=B, kind=normal, tier=thorough, unwind=21, { binom_n::<37>() });
+harness!(name=c17_binomn_038, prop=C17, mode=B, kind=normal, tier=thorough, unwind=22, { binom_n::<38>() });
+harness!(name=c17_binomn_039, prop=C17, mode=B, kind=normal, tier=thorough, unwind=22, { binom_n::<39>() });
+harness!(name=c17_binomn_040, prop=C17, mode=B, kind=normal, tier=thorough, unwind=23, { binom_n::<40>() });
+harness!(name=c17_binomn_041, prop=C17, mode=B, kind=normal, tier=thorough, unwind=23, { binom_n::<41>() });
+harness!(name=c17_binomn_042, prop=C17, mode=B, kind=normal, tier=thorough, unwind=24, { binom_n::<42>() });
+harness!(name=c17_binomn_043, prop=C17, mode=B, kind=normal, tier=thorough, unwind=24, { binom_n::<43>() });
+harness!(name=c17_binomn_044, prop=C17, mode=B, kind=normal, tier=thorough, unwind=25, { binom_n::<44>() });
+harness!(name=c17_binomn_045, prop=C17, mode=B, kind=normal, tier=thorough, unwind=25, { binom_n::<45>() });
+harness!(name=c17_binomn_046, prop=C17, mode=B, kind=normal, tier=thorough, unwind=26, { binom_n::<46>() });
+harness!(name=c17_binomn_047, prop=C17, mode=B, kind=normal, tier=thorough, unwind=26, { binom_n::<47>() });
+harness!(name=c17_binomn_048, prop=C17, mode=B, kind=normal, tier=thorough, unwind=27, { binom_n::<48>() });
+harness!(name=c17_binomn_049, prop=C17, mode=B, kind=normal, tier=thorough, unwind=27, { binom_n::<49>() });
+harness!(name=c17_binomn_050, prop=C17, mode=B, kind=normal, tier=rot1, unwind=28, { binom_n::<50>() });
+harness!(name=c17_binomn_051, prop=C17, mode=B, kind=normal, tier=thorough, unwind=28, { binom_n::<51>() });
+harness!(name=c17_binomn_052, prop=C17, mode=B, kind=normal, tier=thorough, unwind=29, { binom_n::<52>() });
+harness!(name=c17_binomn_053, prop=C17, mode=B, kind=normal, tier=thorough, unwind=29, { binom_n::<53>() });
+harness!(name=c17_binomn_054, prop=C17, mode=B, kind=normal, tier=thorough, unwind=30, { binom_n::<54>() });
+harness!(name=c17_binomn_055, prop=C17, mode=B, kind=normal, tier=thorough, unwind=30, { binom_n::<55>() });
+harness!(name=c17_binomn_056, prop=C17, mode=B, kind=normal, tier=thorough, unwind=31, { binom_n::<56>() });
+harness!(name=c17_binomn_057, prop=C17, mode=B, kind=normal, tier=thorough, unwind=31, { binom_n::<57>() });
+harness!(name=c17_binomn_058, prop=C17, mode=B, kind=normal, tier=thorough, unwind=32, { binom_n::<58>() });
+harness!(name=c17_binomn_059, prop=C17, mode=B, kind=normal, tier=thorough, unwind=32, { binom_n::<59>() });
+harness!(name=c17_binomn_060, prop=C17, mode=B, kind=normal, tier=thorough, unwind=33, { binom_n::<60>() });
+harness!(name=c17_binomn_061, prop=C17, mode=B, kind=normal, tier=thorough, unwind=33, { binom_n::<61>() });
+harness!(name=c17_binomn_062, prop=C17, mode=B, kind=normal, tier=rot2, unwind=34, { binom_n::<62>() });
+harness!(name=c17_binomn_063, prop=C17, mode=B, kind=normal, tier=thorough, unwind=34, { binom_n::<63>() });
+harness!(name=c17_binomn_064, prop=C17, mode=B, kind=normal, tier=rot0, unwind=35, { binom_n::<64>() });
+harness!(name=c17_binomn_065, prop=C17, mode=B, kind=normal, tier=thorough, unwind=35, { binom_n::<65>() });
+harness!(name=c17_binomn_066, prop=C17, mode=B, kind=normal, tier=rot1, unwind=36, { binom_n::<66>() });
 harness!(name=c17_binomn_067, prop=C17, mode=B, kind=normal, tier=quick, unwind=36, { binom_n::<67>() });
-harness!(name=c17_binomn_068, prop=C17, mode=B, kind=normal, tier=quick, unwind=37, { binom_n::<68>() });
+harness!(name=c17_binomn_068, prop=C17, mode=B, kind=normal, tier=rot2, unwind=37, { binom_n::<68>() });
 harness!(name=c17_binomn_069, prop=C17, mode=B, kind=normal, tier=thorough, unwind=37, { binom_n::<69>() });
 harness!(name=c17_binomn_070, prop=C17, mode=B, kind=normal, tier=thorough, unwind=38, { binom_n::<70>() });
 harness!(name=c17_binomn_071, prop=C17, mode=B, kind=normal, tier=thorough, unwind=38, { binom_n::<71>() });
@@ -336,4 +338,4 @@ harness!(name=c17_binomn_096, prop=C17, mode=B, kind=normal, tier=thorough, unwi
 harness!(name=c17_binomn_097, prop=C17, mode=B, kind=normal, tier=thorough, unwind=51, { binom_n::<97>() });
 harness!(name=c17_binomn_098, prop=C17, mode=B, kind=normal, tier=thorough, unwind=52, { binom_n::<98>() });
 harness!(name=c17_binomn_099, prop=C17, mode=B, kind=normal, tier=thorough, unwind=52, { binom_n::<99>() });
-harness!(name=c17_binomn_100, prop=C17, mode=B, kind=normal, tier=quick, unwind=53, { binom_n::<100>() });
+harness!(name=c17_binomn_100, prop=C17, mode=B, kind=normal, tier=thorough, unwind=53, { binom_n::<100>() });
